@@ -374,15 +374,19 @@ def extract_playback(mod, name, timeout_s, mem_gb):
     log = os.path.join(LOGS, f"{mod}-{name}-playback.log")
     rc, status, wall, peak = run_cmd_watch(kani_cmd(full, playback=True), log, timeout_s, mem_gb, env=base_env("pb"))
     txt = open(log, errors="replace").read()
-    m = TEST_RE.search(txt)
-    if not m:
-        # fallback: find from "#[test]" to the closing brace at column 0
-        i = txt.find("#[test]")
-        if i < 0:
-            return None, status
-        j = txt.find("\n}\n", i)
-        return txt[i:j + 3], status
-    return m.group("body"), status
+    # one ``` block per failed check AND per satisfied cover, in no fixed order: take the first block
+    # that belongs to a failed check (not to a cover)
+    blocks = [m.group("body") for m in TEST_RE.finditer(txt)]
+    for b in blocks:
+        if "Check for `cover`" not in b:
+            return b, status
+    if blocks:
+        return blocks[0], status
+    i = txt.find("#[test]")
+    if i < 0:
+        return None, status
+    j = txt.find("\n}\n", i)
+    return txt[i:j + 3], status
 
 
 def write_replay_file(pid, mod, name, test_src, failed, tier):
